@@ -64,6 +64,9 @@ def solve_lp_interior(
 
     m, n = len(b), len(c)
     if m == 0 or n == 0:
+        if any(bi < -eps for bi in b):
+            # No variables: every row reads 0 <= b_i
+            return Result(None, float("inf") if minimize else float("-inf"), 0, 0, Status.INFEASIBLE)
         return Result(tuple([0.0] * n), 0.0, 0, 0, Status.OPTIMAL)
 
     # Flip objective for maximization
